@@ -26,6 +26,7 @@ META = {
     "assumptions": ["python_socks absent"],
 }
 META["claim"] += " " + 'Also: Basic credentials of 58+ bytes, redirects whose hops differ in the proxy decision, and the same decisions through WebSocketApp.run_forever().'
+META["claim"] += " " + 'Round 3b: IPv6 literal targets against CIDR / literal / name no_proxy lists; WebSocketApp with an environment proxy and the exemption passed as run_forever option.'
 
 LABELS = ["a", "b", "ab", "ba"]
 
